@@ -29,7 +29,7 @@ func closedClass(err error) bool {
 		return true
 	}
 	s := err.Error()
-	return strings.Contains(s, "closed") || strings.Contains(s, "closing") || strings.Contains(s, "EOF") || strings.Contains(s, "canceled")
+	return strings.Contains(s, "closed") || strings.Contains(s, "closing") || strings.Contains(s, "EOF")
 }
 
 func c16Scenario(t *testing.T, p *world.PKI, v13 bool, ops string, clientSide bool, seed uint64) func(x *Exec) (string, string) {
